@@ -90,7 +90,7 @@ Proof. intros. unfold trait_env, env_get. cbn. reflexivity. Qed.
 Theorem o2o_lifetime : forall t c,
     is_ref (c_kind c) = true ->
     let these_lts := flat_map (fun g => if gp_is_lt g then [gp_name g] else []) (tv_generics t) in
-    let those_lts := angle_lts (tp_generics (c_ty c)) in
+    let those_lts := declarable_lts (angle_lts (tp_generics (c_ty c))) in
     let ref_lts := if is_from (c_kind c) then these_lts else those_lts in
     ref_lts <> [] ->
     env_get (trait_env t c) "r" = P1 "&" :: lifetime "o2o" /\
@@ -106,7 +106,7 @@ Qed.
 Theorem no_o2o_otherwise : forall t c,
     is_ref (c_kind c) = false ->
     env_get (trait_env t c) "r" = [] /\
-    env_get (trait_env t c) "impl_gens" = print_impl_generics (add_missing_lts (tv_generics t) (angle_lts (tp_generics (c_ty c)))).
+    env_get (trait_env t c) "impl_gens" = print_impl_generics (add_missing_lts (tv_generics t) (declarable_lts (angle_lts (tp_generics (c_ty c))))).
 Proof. intros t c Hr. unfold trait_env, env_get. rewrite Hr. cbn. split; reflexivity. Qed.
 
 (* the where-clause attached is the one dedicated to the counterpart, else the default one *)
@@ -126,6 +126,15 @@ Qed.
 (* and a type without where-clause gets exactly what it got before *)
 Theorem no_own_where : forall w, print_where_all [] w = print_where w.
 Proof. reflexivity. Qed.
+
+(* 'static and '_ are never declared (nor bound by 'o2o); every other lifetime of the counterpart path is *)
+Theorem declarable_spec : forall l x, In x (declarable_lts l) <-> In x l /\ x <> "static"%string /\ x <> "_"%string.
+Proof.
+  intros l x. unfold declarable_lts. rewrite filter_In. split.
+  - intros [Hin Hb]. apply andb_prop in Hb. destruct Hb as [H1 H2]. apply negb_true_iff in H1, H2.
+    split; [exact Hin|]. split; intro E; subst x; cbn in *; discriminate.
+  - intros [Hin [H1 H2]]. split; [exact Hin|]. apply andb_true_intro. split; apply negb_true_iff; apply String.eqb_neq; assumption.
+Qed.
 
 Example lifetimes_example :
   lt_names (add_missing_lts [mk_lt "a"] ["c"; "c"; "a"]%string) = ["a"; "c"]%string.
